@@ -35,6 +35,7 @@ type icEvent struct {
 type icStack struct {
 	nTok, nStmt, nExpr int
 	reentrant          []bool // per expression interceptor: may take the re-entrant path
+	dispatch           []bool // per statement interceptor: may parse the statement itself through the public Parse*Statement API
 	coin               *rand.Rand
 	viaPlugin          bool
 	interleave         []byte // installation order of kinds, e.g. "tsetse"
@@ -98,8 +99,14 @@ func (s *icStack) build(m Mode, run *icRun) (*parser.Builder, func()) {
 		case 's':
 			i := si
 			si++
+			disp := s.dispatch[i]
 			f := func(p *parser.Parser, next func() ast.Statement) ast.Statement {
+				pos := len(run.events)
 				run.events = append(run.events, icEvent{kind: 's', idx: i, start: p.CurrentToken.Start, ttype: p.CurrentToken.Type})
+				if disp && s.coin.IntN(2) == 0 {
+					run.events[pos].reentrant = true
+					return dispatchStatement(p)
+				}
 				return next()
 			}
 			if s.viaPlugin {
@@ -119,7 +126,12 @@ func (s *icStack) build(m Mode, run *icRun) (*parser.Builder, func()) {
 				var res ast.Expression
 				if re && s.coin.IntN(2) == 0 {
 					run.events[pos].reentrant = true
-					left := p.ParsePrefixExpression()
+					var left ast.Expression
+					if s.coin.IntN(2) == 0 {
+						left = p.ParsePrefixExpression()
+					} else {
+						left = dispatchPrefix(p)
+					}
 					res = p.ParseRemainingExpression(left)
 				} else {
 					res = next()
@@ -144,12 +156,96 @@ func (s *icStack) build(m Mode, run *icRun) (*parser.Builder, func()) {
 	}
 }
 
+// dispatchStatement parses the statement at the current token the way a plugin does that handles statements itself:
+// through the public Parse*Statement functions (a `while` statement is assembled by hand from ExpectToken / NextToken /
+// ParseExpression / ParseStatement, exactly like the built-in). The result must be what the default path gives.
+func dispatchStatement(p *parser.Parser) ast.Statement {
+	switch p.CurrentToken.Type {
+	case token.LET:
+		if st := p.ParseLetStatement(); st != nil {
+			return st
+		}
+	case token.FUNCTION:
+		if st := p.ParseFunctionStatement(); st != nil {
+			return st
+		}
+	case token.RETURN:
+		if st := p.ParseReturnStatement(); st != nil {
+			return st
+		}
+	case token.IF:
+		if st := p.ParseIfStatement(); st != nil {
+			return st
+		}
+	case token.WHILE:
+		st := &ast.WhileStatement{Token: p.CurrentToken}
+		if !p.ExpectToken(token.LPAREN) {
+			return nil
+		}
+		p.NextToken()
+		st.Condition = p.ParseExpression()
+		if !p.ExpectToken(token.RPAREN) {
+			return nil
+		}
+		p.NextToken()
+		st.Body = p.ParseStatement()
+		return st
+	case token.FOR:
+		if st := p.ParseForStatement(); st != nil {
+			return st
+		}
+	case token.LBRACE:
+		return p.ParseBlockStatement()
+	default:
+		if st := p.ParseExpressionStatement(); st != nil {
+			return st
+		}
+	}
+	return nil
+}
+
+// dispatchPrefix parses the prefix at the current token through the specific public parse function where the token
+// type determines it (what a plugin that special-cases one kind of operand does), else through ParsePrefixExpression.
+func dispatchPrefix(p *parser.Parser) ast.Expression {
+	switch p.CurrentToken.Type {
+	case token.IDENT:
+		return p.ParseIdentifier()
+	case token.INT:
+		return p.ParseIntegerLiteral()
+	case token.FLOAT:
+		return p.ParseFloatLiteral()
+	case token.STRING:
+		return p.ParseStringLiteral()
+	case token.RAW_STRING:
+		return p.ParseMultiStringLiteral()
+	case token.TRUE, token.FALSE:
+		return p.ParseBooleanLiteral()
+	case token.NULL:
+		return p.ParseNullLiteral()
+	case token.NOT, token.MINUS, token.INCREMENT, token.DECREMENT:
+		return p.ParseUnaryExpression()
+	case token.LPAREN:
+		return p.ParseGroupedExpression()
+	case token.LBRACKET:
+		return p.ParseArrayLiteral()
+	case token.LBRACE:
+		return p.ParseObjectLiteral()
+	case token.FUNCTION:
+		return p.ParseFunctionExpression()
+	}
+	return p.ParsePrefixExpression()
+}
+
 func randStack(r *rand.Rand, allowReentrant bool) *icStack {
 	s := &icStack{nTok: r.IntN(9), nStmt: r.IntN(9), nExpr: r.IntN(9), viaPlugin: r.IntN(2) == 0}
 	s.reentrant = make([]bool, s.nExpr)
+	s.dispatch = make([]bool, s.nStmt)
 	if allowReentrant {
 		for i := range s.reentrant {
 			s.reentrant[i] = r.IntN(2) == 0
+		}
+		for i := range s.dispatch {
+			s.dispatch[i] = r.IntN(3) == 0
 		}
 	}
 	for i := 0; i < s.nTok; i++ {
@@ -170,7 +266,7 @@ func randStack(r *rand.Rand, allowReentrant bool) *icStack {
 }
 
 func (s *icStack) String() string {
-	return fmt.Sprintf("tok=%d stmt=%d expr=%d reentrant=%v plugin=%v order=%s|%s", s.nTok, s.nStmt, s.nExpr, s.reentrant, s.viaPlugin, string(s.interleave[:s.stageAt]), string(s.interleave[s.stageAt:]))
+	return fmt.Sprintf("tok=%d stmt=%d expr=%d reentrant=%v dispatch=%v plugin=%v order=%s|%s", s.nTok, s.nStmt, s.nExpr, s.reentrant, s.dispatch, s.viaPlugin, string(s.interleave[:s.stageAt]), string(s.interleave[s.stageAt:]))
 }
 
 func plainTokens(src string) []token.Token {
@@ -239,14 +335,21 @@ func checkOneInterceptedParse(t *fw.T, src string, rd *gen.Rendered, s *icStack,
 	t.Count("parses_with_interceptors", 1)
 	t.Count("interceptor_invocations", len(run.events))
 	allPass := true
-	nRe := 0
+	passKind := map[byte]bool{'t': true, 's': true, 'e': true}
+	nRe, nDisp := 0, 0
 	for _, e := range run.events {
 		if e.reentrant {
 			allPass = false
-			nRe++
+			passKind[e.kind] = false
+			if e.kind == 's' {
+				nDisp++
+			} else {
+				nRe++
+			}
 		}
 	}
 	t.Count("reentrant_steps", nRe)
+	t.Count("statements_parsed_by_an_interceptor_through_the_public_API", nDisp)
 	key := "pass-through"
 	if !allPass {
 		key = "re-entrant"
@@ -303,7 +406,7 @@ func checkOneInterceptedParse(t *fw.T, src string, rd *gen.Rendered, s *icStack,
 	counts := map[byte]int{'t': s.nTok, 's': s.nStmt, 'e': s.nExpr}
 	names := map[byte]string{'t': "token", 's': "statement", 'e': "expression"}
 	for _, kind := range []byte{'t', 's', 'e'} {
-		if kind == 'e' && !allPass {
+		if !passKind[kind] {
 			continue // an interceptor that takes the re-entrant path does not call next(): later ones legitimately skip that step
 		}
 		for i := 1; i < counts[kind]; i++ {
@@ -387,7 +490,7 @@ func checkOneInterceptedParse(t *fw.T, src string, rd *gen.Rendered, s *icStack,
 			}
 		}
 	}
-	if s.nExpr > 0 && allPass {
+	if s.nExpr > 0 && passKind['e'] {
 		seen := map[token.Position]int{}
 		for _, p := range seqs[seqKey{'e', 0}] {
 			seen[p]++
